@@ -109,7 +109,8 @@ class Scratch:
                 if not os.path.exists(target): raise BuildError('append target missing: ' + target)
                 if self.props is not None and fn not in self.props: continue
                 body = open(os.path.join(pdir, fn)).read()
-                gate = '#[cfg(test)]\n' if 'requires: cfg(test)' in body.split('\n', 3)[0] + body.split('\n', 3)[1] else ''
+                mg = re.search(r'requires: cfg\((\w+)\)', '\n'.join(body.split('\n')[:4]))
+                gate = '#[cfg(%s)]\n' % mg.group(1) if mg else ''
                 with open(target, 'a') as f:
                     f.write('\n%s#[allow(dead_code, unused_imports, unused_variables, clippy::all)]\npub mod %s {\n%s\n}\n' % (gate, m.group(2), body))
                 self._collect_sigs(body, 'APPEND:' + m.group(1).replace('-', '::') + '::' + m.group(2))
@@ -125,6 +126,15 @@ class Scratch:
         libtxt = open(os.path.join(src, 'lib.rs')).read()
         for path in sorted({pth[7:].split('::')[0] for pth, _ in getattr(self, 'prop_texts', []) if pth.startswith('APPEND:')}):
             libtxt = re.sub(r'^mod %s;' % path, '#[doc(hidden)] #[allow(missing_docs, missing_debug_implementations)] pub mod %s;' % path, libtxt, flags=re.M)
+        for pth, _ in getattr(self, 'prop_texts', []):
+            if not pth.startswith('APPEND:'): continue
+            parts = pth[7:].split('::')
+            if len(parts) >= 3:      # a::b::<appended module>: make `b` reachable inside src/a/mod.rs
+                modrs = os.path.join(src, parts[0], 'mod.rs')
+                if os.path.exists(modrs):
+                    t = open(modrs).read()
+                    t = re.sub(r'^(?:pub\([\w]+\) )?mod %s;' % parts[1], 'pub mod %s;' % parts[1], t, flags=re.M)
+                    open(modrs, 'w').write(t)
         libtxt = libtxt.replace('#![forbid(unsafe_code)]', '').replace('#![warn(missing_docs)]', '').replace('#![warn(missing_debug_implementations)]', '')
         open(os.path.join(src, 'lib.rs'), 'w').write(libtxt)
         os.makedirs(os.path.join(self.dir, 'src', 'bin'), exist_ok=True)
